@@ -187,8 +187,9 @@ class LazyB64(Harness):
         return (type(e).__name__, e.encode_bytes(b"xyz"), e.big)
 
 
-def reset_backend(cls):
-    """put a multi-backend hasher class back into its never-used state"""
+def reset_backend(cls, keep_workarounds=False):
+    """put a multi-backend hasher class back into its never-used state
+    (keep_workarounds: keep the bcrypt mixins' cached self-test verdicts, which are constants of the host)"""
     import passlib.utils.handlers as uh
 
     owner = cls._get_backend_owner() if hasattr(cls, "_get_backend_owner") else cls
@@ -200,7 +201,7 @@ def reset_backend(cls):
         bases = [b for b in owner.__bases__ if b not in mm.values()]
         # _NoBackend goes first (as in the class statement)
         owner.__bases__ = (mm[None],) + tuple(bases)
-        for m in mm.values():
+        for m in ([] if keep_workarounds else mm.values()):
             for k in ("_workrounds_initialized", "_has_2a_wraparound_bug", "_lacks_20_support", "_lacks_2y_support",
                       "_lacks_2b_support", "_fallback_ident"):
                 if k in m.__dict__ and m.__name__ != "_BcryptCommon":
